@@ -612,6 +612,42 @@ def rule_noop(ctx, rep):
             r.ok(inst, loc_str(b.f, s[3]))
 
 
+def rule_syntaxlabel(ctx, rep, rid="R-C05-syntaxlabel"):
+    """The syntax diagnostic says "Found text '..' that matched token ..": its label must lie on that very token.  In parse_library's
+    error mapping every field of a Token that is read (span for the label, text and token_type for the message) belongs to one and
+    the same token value."""
+    r = rep.rule(rid, "the P0002 label and its message are taken from one token: in parse_library's error mapping all Token fields read (span, text, "
+                      "token_type) have the same root value", floor=1)
+    bodies = [b for b in ctx.prog.bodies.values() if norm(b.id).startswith("ironplc_parser::parser::parse_library")]
+    found = False
+    for b in sorted(bodies, key=lambda x: x.id):
+        ls = [c for c in b.calls() if c.callee == "ironplc_dsl::diagnostic::Label::span"]
+        if not ls:
+            continue
+        found = True
+        roots = {}
+        for _, k, pl in b.place_uses():
+            if k == "write":
+                continue
+            rt = b.root(pl)
+            fs = [x for x in rt[1] if isinstance(x, list) and x[0] == "f"]
+            if fs and fs[-1][3] == TOKEN or (len(fs) >= 2 and fs[-2][3] == TOKEN):
+                tf = [x for x in fs if x[3] == TOKEN][0]
+                base = (rt[0], tuple(str(x) for x in rt[1][:rt[1].index(tf)]))
+                roots.setdefault(base, set()).add(tf[2])
+        where = loc_str(b.f, ls[0].loc)
+        span_roots = [k for k, v in roots.items() if "span" in v]
+        text_roots = [k for k, v in roots.items() if v & {"text", "token_type"}]
+        if len(span_roots) == 1 and set(text_roots) <= set(span_roots):
+            r.ok("parse_library|label and message from one token", where, "fields read: " + ",".join(sorted(roots[span_roots[0]])))
+        else:
+            r.finding("parse_library|label-and-message-from-different-tokens", where,
+                      "the label's span is read from one token value and the quoted text / token kind from another (%d token values are read): the underline "
+                      "is not on the text the message quotes" % len(roots))
+    if not found:
+        rep.error(rid, "no Label::span call in parse_library's error mapping")
+
+
 def rule_tile(ctx, rep, rid="R-C05-tile"):
     """Tokens can only tile the source, and the running line/column can only be right, if the lexer hands out a token for every
     character it consumes: `tokenize` advances its counters per yielded token.  logos consumes text silently in exactly two ways:
@@ -904,6 +940,7 @@ def run(ctx, rep):
     rule_pair(ctx, rep)
     rule_linecol(ctx, rep)
     rule_tile(ctx, rep)
+    rule_syntaxlabel(ctx, rep)
     from rules.c15 import rule_verbatim
     rule_verbatim(ctx, rep, rid="R-C05-verbatim")
     from rules import c05_blank, c05_joinorder
